@@ -133,7 +133,7 @@ def monitor(script):
             if len(got) < mx:
                 missing = sorted(t for t in elig - set(got) if not txs[t].fuzzy)
                 if missing:
-                    hit("retry-missed", f"GetTxRequests(node {n}, max {mx}) returned {got} but tx {missing} announced by node {n} are past the time-out and undelivered")
+                    hit("retry-missed", f"GetTxRequests(node {n}, max {mx}) returned {len(got)} txids {got[:8]}{'…' if len(got) > 8 else ''} but tx {missing[:12]} announced by node {n} are past the time-out and undelivered")
             for t in got:
                 x = get(t)
                 x.last_grant = epoch
@@ -151,6 +151,7 @@ def monitor(script):
             if "grants" not in o:
                 hit("stress-failed", f"stress op did not complete: {oraw[:100]}")
                 continue
+            fresh = all(t not in txs for t in range(int(a["base"]), int(a["base"]) + int(a["txs"])))
             grants = _pairs(o["grants"])
             late = _ints(o["late"])
             dl = _ints(o["dlv"])
@@ -171,6 +172,19 @@ def monitor(script):
                 x.fuzzy = True
                 if t in per:
                     x.last_grant = epoch
+            if verb == "storm" and a.get("kind") == "ann" and fresh and to >= 1 and not dl:
+                # every goroutine w announced every (fresh) txid as node w+1 in the same instant: whoever was not
+                # granted the request is an announcer waiting for the time-out — the state is exact, not fuzzy
+                g = int(a["g"])
+                granted = {}
+                for t, nd in grants:
+                    granted.setdefault(t, set()).add(nd)
+                for t in range(base, base + n):
+                    x = get(t)
+                    if t not in granted:
+                        hit("request-missed", f"concurrent run: none of the {g} simultaneous announcements of the fresh tx {t} was answered true")
+                    x.waiting = set(range(1, g + 1)) - granted.get(t, set())
+                    x.fuzzy = False
             for t in dl:
                 x = get(t)
                 if t not in rel:
